@@ -546,6 +546,15 @@ pub fn full_decaps(
         U
     };
 
+    // A right is of interest only if the MSK still publishes it, which is
+    // decided by its most recent secret: an old secret of a right that has
+    // been disabled since may still be flagged as activated.
+    let is_publishable = |secret_set: &LinkedList<(bool, RightSecretKey)>| {
+        secret_set
+            .front()
+            .is_some_and(|(is_activated, _)| *is_activated)
+    };
+
     let mut enc_ss = None;
     let mut rights = HashSet::with_capacity(encapsulation.count());
     let mut try_decaps = |right: &Right,
@@ -571,13 +580,14 @@ pub fn full_decaps(
         Encapsulations::HEncs(encs) => {
             for (E, F) in encs {
                 for (right, secret_set) in msk.secrets.iter() {
-                    for (is_activated, secret) in secret_set {
-                        if *is_activated {
-                            if let RightSecretKey::Hybridized { sk, dk } = secret {
-                                let mut K1 = ElGamal::session_key(sk, &A)?;
-                                let K2 = MlKem::dec(dk, E)?;
-                                try_decaps(right, &mut K1, Some(K2), F)?;
-                            }
+                    if !is_publishable(secret_set) {
+                        continue;
+                    }
+                    for (_, secret) in secret_set {
+                        if let RightSecretKey::Hybridized { sk, dk } = secret {
+                            let mut K1 = ElGamal::session_key(sk, &A)?;
+                            let K2 = MlKem::dec(dk, E)?;
+                            try_decaps(right, &mut K1, Some(K2), F)?;
                         }
                     }
                 }
@@ -586,15 +596,16 @@ pub fn full_decaps(
         Encapsulations::CEncs(encs) => {
             for F in encs {
                 for (right, secret_set) in msk.secrets.iter() {
-                    for (is_activated, secret) in secret_set {
-                        if *is_activated {
-                            let sk = match secret {
-                                RightSecretKey::Hybridized { sk, .. } => sk,
-                                RightSecretKey::Classic { sk } => sk,
-                            };
-                            let mut K1 = ElGamal::session_key(sk, &A)?;
-                            try_decaps(right, &mut K1, None, F)?;
-                        }
+                    if !is_publishable(secret_set) {
+                        continue;
+                    }
+                    for (_, secret) in secret_set {
+                        let sk = match secret {
+                            RightSecretKey::Hybridized { sk, .. } => sk,
+                            RightSecretKey::Classic { sk } => sk,
+                        };
+                        let mut K1 = ElGamal::session_key(sk, &A)?;
+                        try_decaps(right, &mut K1, None, F)?;
                     }
                 }
             }
